@@ -46,22 +46,112 @@ func waitQuiescent(d time.Duration) (sum, min int, detail string) {
 func TestC07(t *testing.T) {
 	rec := ev.New("C07", "requests through an in-process BFE whose cluster mixes live harness backends and refused ports (RetryMax 2, retry-GET); per request a generated per-arrival backend fault script (close before response, header timeout, half response, good) and a generated module verdict (Finish at HandleForward, Response/Redirect/Close/Finish at request points, Finish/Redirect at HandleReadResponse, Finish at HandleRequestFinish); plus batches of 2..6 concurrent requests held inside backends. Oracle: ConnNum() of every backend the balancer ever returned is never negative, equals the number of held requests while they are inside a backend exchange, and is 0 at quiescence. non-trivial: >=1 retry, or a forward-phase Finish, or a held batch; distinct by script")
 	var ports []int
-	w := startWorld(t, 3, sys.Options{AfterInit: installFilters}, func(p []int) *sys.DataConf {
+	w := startWorld(t, 4, sys.Options{AfterInit: installFilters}, func(p []int) *sys.DataConf {
 		ports = p
 		cl := sys.Cluster{Name: "c", RetryMax: 2, CrossRetry: 0, RetryLevel: 1, TimeoutResponseHeaderMs: 250, TimeoutConnSrvMs: 500, BalanceMode: "WLC"}
 		sc := sys.SubCluster{Name: "s0", Weight: 100}
-		for i, port := range p {
+		for i, port := range p[:3] {
 			sc.Backends = append(sc.Backends, sys.BackendSpec{Name: fmt.Sprintf("b%d", i), Addr: "127.0.0.1", Port: port, Weight: 10})
 		}
 		sc.Backends = append(sc.Backends, sys.BackendSpec{Name: "dead0", Addr: "127.0.0.1", Port: 1, Weight: 10})
 		cl.Sub = []sys.SubCluster{sc}
-		return sys.SimpleConf("v0", []sys.Cluster{cl}, nil)
+		// "flap" cluster: one backend that the health state machine takes out of rotation after
+		// two request failures and brings back after one successful TCP probe (every 20 ms)
+		fl := sys.Cluster{Name: "cflap", RetryMax: 0, RetryLevel: 0, TimeoutResponseHeaderMs: 2000, TimeoutConnSrvMs: 500, FailNum: 2, CheckIntervalMs: 20,
+			Sub: []sys.SubCluster{{Name: "sf", Weight: 100, Backends: []sys.BackendSpec{{Name: "bflap", Addr: "127.0.0.1", Port: p[3], Weight: 10}}}}}
+		return sys.SimpleConf("v0", []sys.Cluster{cl, fl}, []sys.Rule{
+			{Cond: `req_path_prefix_in("/c07f/", false)`, Cluster: "cflap"},
+			{Cond: `default_t()`, Cluster: "c"},
+		})
 	})
 	_ = ports
 	n := 0
 	rapid.Check(t, func(rt *rapid.T) {
 		n++
-		mode := rapid.SampledFrom([]string{"single", "single", "single", "batch"}).Draw(rt, "mode")
+		mode := rapid.SampledFrom([]string{"single", "single", "single", "single", "single", "batch", "batch", "flap"}).Draw(rt, "mode")
+		if mode == "flap" {
+			// a request is held inside the backend while other requests' failures take the
+			// backend out of rotation and the health checker brings it back
+			nfail := rapid.IntRange(2, 4).Draw(rt, "nfail")
+			rec.Case(fmt.Sprintf("flap%d", nfail), true, "flap")
+			rec.Sample(map[string]any{"mode": "flap", "failures": nfail})
+			w.mu.Lock()
+			w.holdCh = make(chan struct{})
+			hold := w.holdCh
+			w.mu.Unlock()
+			held := fmt.Sprintf("/c07f/%d/held", n)
+			w.setScript(held, &respScript{Fault: "hold"})
+			done := make(chan struct{})
+			go func() {
+				defer close(done)
+				w.exchange([]byte(fmt.Sprintf("POST %s HTTP/1.1\r\nHost: example.org\r\nContent-Length: 2\r\nConnection: close\r\n\r\nhi", held)), 25*time.Second)
+			}()
+			release := func() {
+				close(hold)
+				<-done
+				w.forget(held)
+			}
+			deadline := time.Now().Add(10 * time.Second)
+			for len(w.seenFor(held)) == 0 {
+				if time.Now().After(deadline) {
+					release()
+					rec.Class("flap-inconclusive")
+					return
+				}
+				time.Sleep(time.Millisecond)
+			}
+			for i := 0; i < nfail; i++ {
+				tg := fmt.Sprintf("/c07f/%d/x%d", n, i)
+				w.setScript(tg, &respScript{Fault: "close-before-response"})
+				w.exchange([]byte(fmt.Sprintf("POST %s HTTP/1.1\r\nHost: example.org\r\nContent-Length: 2\r\nConnection: close\r\n\r\nhi", tg)), 10*time.Second)
+				w.forget(tg)
+			}
+			// wait until the backend serves again (health checker brought it back)
+			back := false
+			for i := 0; i < 400 && !back; i++ {
+				tg := fmt.Sprintf("/c07f/%d/p%d", n, i)
+				resp, _, _ := w.exchange([]byte(fmt.Sprintf("GET %s HTTP/1.1\r\nHost: example.org\r\nConnection: close\r\n\r\n", tg)), 5*time.Second)
+				w.forget(tg)
+				back = strings.HasPrefix(string(resp), "HTTP/1.1 200")
+				if !back {
+					time.Sleep(10 * time.Millisecond)
+				}
+			}
+			if !back {
+				release()
+				rec.Class("flap-inconclusive")
+				return
+			}
+			rec.Class("flap-backend-recovered")
+			var heldCount = -1000
+			detail := ""
+			deadline = time.Now().Add(3 * time.Second)
+			for {
+				for _, b := range hub.knownBackends() {
+					if b.Name == "bflap" {
+						heldCount = b.ConnNum()
+					}
+				}
+				_, _, detail = connNums()
+				if heldCount == 1 || time.Now().After(deadline) {
+					break
+				}
+				time.Sleep(time.Millisecond)
+			}
+			wit := map[string]any{"mode": "flap", "failures": nfail, "conn_nums_while_held": detail}
+			release()
+			if heldCount != 1 {
+				if !rec.Fail(rt, "flap-held-count-mismatch", wit, "one request is inside the backend exchange after the backend flapped, but its ConnNum is %d (%s)", heldCount, detail) {
+					return
+				}
+			}
+			sum, min, detail := waitQuiescent(5 * time.Second)
+			wit["conn_nums_after"] = detail
+			if min < 0 || sum != 0 {
+				rec.Fail(rt, "nonzero-after-flap", wit, "after the held request finished: %s", detail)
+			}
+			return
+		}
 		if mode == "batch" {
 			k := rapid.IntRange(2, 6).Draw(rt, "k")
 			rec.Case(fmt.Sprintf("batch%d", k), true, "batch")
